@@ -1017,10 +1017,16 @@ def front_wiring(rep, ex: Explorer):
         st = [e for e in evs if e.kind == "front.state"]
         op = [e for e in evs if e.kind == "front.operator"]
         so = [e for e in evs if e.kind == "front.solve"]
-        oks = len(st) == 1 and len(st[0].args) >= 2 and st[0].args[0] == held["bb"] and st[0].args[1] == Const("c-inference")
-        wk = (st[0].kwargs.get("weakly") if st else None) or (st[0].args[4] if st and len(st[0].args) > 4 else None)
-        oks = oks and wk == Const(False)
-        rep.check(oks, "FRONT.wiring", site, "state", "the constraint system is that of c-inference over the given base (strict mode)", extracted=repr(st[0].args[:2]) + f" weakly={wk!r}" if st else "none", required="(base, 'c-inference'), weakly=False", function=site)
+        sb = {}
+        if len(st) == 1:
+            cfi = ex.prog.functions.get("inference.inference_manager.create_epistemic_state")
+            cparams = [a.arg for a in cfi.node.args.args] if cfi is not None else []
+            sb = {cparams[i]: v for i, v in enumerate(st[0].args) if i < len(cparams)}
+            sb.update(st[0].kwargs)
+        wk = sb.get("weakly", Const(False))
+        oks = len(st) == 1 and sb.get("belief_base") == held["bb"] and sb.get("inference_system") == Const("c-inference") and wk == Const(False)
+        rep.check(oks, "FRONT.wiring", site, "state", "the constraint system is that of c-inference over the given base (strict mode)",
+                  extracted=f"base={sb.get('belief_base')!r}, system={sb.get('inference_system')!r}, weakly={wk!r}" if st else "none", required="(base, 'c-inference'), weakly=False", function=site)
         oko = len(op) == 1 and op[0].args[:1] == (Sym(("ES",)),)
         rep.check(oko, "FRONT.wiring", site, "operator", "the operator is built on that state", extracted=repr(op[0].args) if op else "none", required="CInference(state)", function=site)
         if len(so) != 1:
@@ -1045,8 +1051,23 @@ def front_wiring(rep, ex: Explorer):
                 _, kb, fam2, g2, cell = inner[1][0]
                 want = ("mcall", ("elem", sb, "optional"), "get", (("name", ("eta_", ("elem", kb, "key"))), ("c", 0)))
                 okr = fam2 == KEYS_D and g2 == PTRUE and tuple(desc(cell)[:4]) == want
+            elif fam == SOL and g == PTRUE and isinstance(inner, tuple) and inner[0] in ("list", "tuple") and len(inner[1]) == 2 and all(x[0] == "each" for x in inner[1]):
+                # the same entry written as a test: sol[eta_i] if eta_i in sol else 0
+                (_, k1, f1, g1, c1), (_, k2, f2, g2, c2) = inner[1]
+                nm = lambda kb: ("name", ("eta_", ("elem", kb, "key")))  # noqa: E731
+                has = lambda kb: ("in", nm(kb), sb)  # noqa: E731
+                cells = {}
+                for kb, f_, g_, c_ in ((k1, f1, g1, c1), (k2, f2, g2, c2)):
+                    if f_ != KEYS_D:
+                        cells = None
+                        break
+                    if g_ == has(kb):
+                        cells["in"] = desc(c_) == ("item", ("elem", sb, "optional"), nm(kb))
+                    elif g_ == ("not", has(kb)):
+                        cells["out"] = c_ == Const(0)
+                okr = cells is not None and cells.get("in") is True and cells.get("out") is True
         rep.check(okr, "FRONT.wiring", site, "vectors", "one vector per solution; its entry for conditional i is that solution's value of eta_i (0 when the optimiser left it out)",
-                  extracted=repr(rv)[:200], required="[ (sol.get(eta_i, 0) for every key i) for every solution ]", function=site)
+                  extracted=repr(rv)[:900], required="[ (sol.get(eta_i, 0) for every key i) for every solution ]", function=site)
     rep.floor("front enumeration paths", n, 1)
     return {"front_paths": n}
 
